@@ -771,6 +771,9 @@ def _guarded_caches(ctx, P):
             c = strip_casts(b.cond) if b.cond is not None else None
             if c is None or len(b.succs) < 2 or c.get('op') != 'member' or not c.get('t', '').startswith(('i', 'u')):
                 continue
+            pth_ = fn.path(c)
+            if pth_ is not None and pth_.root_kind == 'local':
+                continue          # a local copy does not outlive the call: it cannot short-cut the next one
             i = [k for k, (s_, l_) in enumerate(b.succs) if l_ == 'T']
             w = find_path(fn, (b, i[0]), lambda ev, facts: 'stop' if ev.k == 'call' else
                           ('target' if (ev.k == 'ret' and ret_class(fn, ev, facts) == 'zero') else None)) if i else None
